@@ -53,6 +53,32 @@ func init() {
 	childCmds["c13race"] = c13RaceChild
 }
 
+// c13FirstUse: the very first library calls of this process are 32 concurrent compilations of distinct policy values that
+// leave the architecture implicit, released together (lazily initialised package state would be written here only).
+func c13FirstUse() int {
+	x := refsemArch("x86_64")
+	var wg sync.WaitGroup
+	res := make([]string, 32)
+	start := make(chan struct{})
+	for g := 0; g < 32; g++ {
+		g := g
+		p := c13Policy(x, g%2)
+		seccomp.VerifSetArch(p, nil)
+		wg.Add(1)
+		go func() { defer wg.Done(); <-start; res[g] = c13Compile(p) }()
+	}
+	close(start)
+	wg.Wait()
+	bad := 0
+	for g := 2; g < 32; g++ {
+		if res[g] != res[g%2] {
+			bad++
+			fmt.Printf("RESULT-MISMATCH first-use: goroutine %d differs from goroutine %d\n", g, g%2)
+		}
+	}
+	return bad
+}
+
 // c13RaceChild runs the scenario bodies free-running (no scheduler) on many goroutines; built with -race.
 func c13RaceChild(args []string) {
 	scen := c13Scenarios()
@@ -64,6 +90,11 @@ func c13RaceChild(args []string) {
 	}
 	sort.Strings(names)
 	bad := 0
+	if len(args) > 0 && args[0] == "first-use" {
+		bad += c13FirstUse()
+		fmt.Printf("RACE-PASS-DONE mismatches=%d\n", bad)
+		return
+	}
 	for rep := 0; rep < 40; rep++ {
 		for _, n := range names {
 			bodies, check := scen[n]()
@@ -294,7 +325,7 @@ func checkC13(tier, replay string) int {
 		ctx.Capped(fmt.Sprintf("%d schedules could not be replayed deterministically (nondeterministic step count in the code under test)", diverged))
 	}
 	lap("exploration")
-	// 3. sequential histories: all sequences of length <= 4 over 8 operations
+	// 3. sequential histories: all sequences of length <= 4 over 9 operations
 	histories, hsteps := c13Histories(ctx)
 	// 4. text forms and compiled programs across fresh processes
 	self, _ := os.Executable()
@@ -353,13 +384,13 @@ func checkC13(tier, replay string) int {
 	ctx.Cov["fresh_processes_for_text_forms"] = procs
 	ctx.Cov["distinct_text_results_seen"] = distinctTexts
 	ctx.Cov["race_pass_runs"] = raceRuns
-	ctx.Cov["rule"] = "the current sources of the library packages are rewritten (a scheduling point before every statement; functions that iterate maps run as atomic steps), compiled with go build -overlay and run under a cooperative scheduler; for each scenario (two copies sharing backing arrays, two architectures, Assemble||Dump, Assemble||GetInfo, Assemble||text conversions, same value twice, three threads) every schedule with at most 1 preemption (2 for the small and the tiny shared-copies scenarios; thorough: 2 for every two-thread scenario and 3 for the tiny one) is executed on the real code; oracle per schedule: each call returns what it returns alone and every input policy incl. spare slice capacity is bit-identical; a reported schedule is replayed twice in a fresh process; plus all operation histories of length <= 4 over 8 operations (incl. compiling two values that share one Syscalls slice for two architectures), text forms over 512 calls in fresh processes, and a separate free-running -race pass of the same bodies"
+	ctx.Cov["rule"] = "the current sources of the library packages are rewritten (a scheduling point before every statement; functions that iterate maps run as atomic steps), compiled with go build -overlay and run under a cooperative scheduler; for each scenario (two copies sharing backing arrays, two architectures, Assemble||Dump, Assemble||GetInfo, Assemble||text conversions, same value twice, three threads) every schedule with at most 1 preemption (2 for the small and the tiny shared-copies scenarios; thorough: 2 for every two-thread scenario and 3 for the tiny one) is executed on the real code; oracle per schedule: each call returns what it returns alone and every input policy incl. spare slice capacity is bit-identical; a reported schedule is replayed twice in a fresh process; plus all operation histories of length <= 4 over 9 operations (incl. compiling two values that share one Syscalls slice for two architectures, and modifying a policy value that was compiled before), text forms over 512 calls in fresh processes, and a separate free-running -race pass of the same bodies"
 	ctx.Sample(map[string]any{"scenario": "shared-copies", "threads": []string{"Assemble(p)", "Assemble(copy of p sharing Syscalls/Names/Conditions arrays)"}, "schedule_example": "thread 0 runs to filter.go:2xx, preempted, thread 1 runs to completion, thread 0 resumes"})
 	ctx.Assumptions = []string{"scheduling points at statement granularity; unsynchronised accesses inside one statement are covered by the separate -race pass", "map iteration order cannot be controlled; it is covered by repetition across processes (miss probability < 1e-14 per process for the 2-key flag map)"}
 	return ctx.Finish()
 }
 
-// c13Histories: all sequences of length <= 4 over 8 operations; every compilation must equal its solo result.
+// c13Histories: all sequences of length <= 4 over 9 operations; every compilation must equal its solo result.
 func c13Histories(ctx *evid.Ctx) (int64, int64) {
 	x := refsemArch("x86_64")
 	arm := refsemArch("arm")
@@ -380,6 +411,7 @@ func c13Histories(ctx *evid.Ctx) (int64, int64) {
 		seccomp.VerifSetArch(&q, i386.Info)
 		return p, &q
 	}
+	soloPext := c13Solo("hist-Pext", 0)
 	soloSP := c13Solo("shared-slices-two-archs", 0)
 	soloSQ := c13Solo("shared-slices-two-archs", 1)
 	var n, steps int64
@@ -391,18 +423,28 @@ func c13Histories(ctx *evid.Ctx) (int64, int64) {
 		q := c13Policy(arm, 0)
 		snapP, snapQ := c13Snapshot(p), c13Snapshot(q)
 		sp, sq := mkShared()
+		extended := false
 		for si, op := range seq {
 			steps++
 			var got, want string
 			switch op {
 			case 0, 1:
 				got, want = c13Compile(p), soloP
+				if extended {
+					want = soloPext
+				}
 			case 2:
 				cp := *p
 				got, want = c13Compile(&cp), soloP
+				if extended {
+					want = soloPext
+				}
 			case 3:
 				got, want = c13Compile(q), soloQ
 			case 4:
+				if extended {
+					continue
+				}
 				got, want = c13Dump(p), soloDump
 			case 5:
 				got, want = c13Texts(), soloTexts
@@ -410,6 +452,15 @@ func c13Histories(ctx *evid.Ctx) (int64, int64) {
 				got, want = c13Compile(sp), soloSP
 			case 7:
 				got, want = c13Compile(sq), soloSQ
+			case 8:
+				// the caller modifies the policy value it compiled before (one more group, another default) and compiles again:
+				// the result must be that of an equal, freshly built policy
+				if !extended {
+					c13Extend(x, p)
+					extended = true
+					snapP = c13Snapshot(p)
+				}
+				got, want = c13Compile(p), soloPext
 			}
 			if got != want {
 				ctx.Violation(fmt.Sprintf("C13:history:op%d", op), fmt.Sprintf("history %v: step %d (op %d) gives a different result than the same call alone", seq, si, op), map[string]any{"history": append([]int{}, seq...)})
@@ -427,7 +478,7 @@ func c13Histories(ctx *evid.Ctx) (int64, int64) {
 		if len(seq) == 4 {
 			return
 		}
-		for op := 0; op < 8; op++ {
+		for op := 0; op < 9; op++ {
 			seq = append(seq, op)
 			rec()
 			seq = seq[:len(seq)-1]
@@ -451,10 +502,14 @@ func c13RacePass(ctx *evid.Ctx, scratch string) int {
 		ctx.Capped(fmt.Sprintf("race build not possible here: %v %.200s", err, b))
 		return 0
 	}
-	runs := 4
+	runs := 4 + 48
 	var fails int64
 	parallelFor(runs, func(i int) {
-		r := runCmd(10*time.Minute, append(os.Environ(), "GORACE=halt_on_error=0 exitcode=66"), scratch, raceBin, "child", "c13race")
+		argv := []string{raceBin, "child", "c13race"}
+		if i >= 4 {
+			argv = append(argv, "first-use") // 48 fresh processes whose first library calls are concurrent
+		}
+		r := runCmd(10*time.Minute, append(os.Environ(), "GORACE=halt_on_error=0 exitcode=66"), scratch, argv...)
 		if strings.Contains(r.Stderr, "WARNING: DATA RACE") {
 			atomic.AddInt64(&fails, 1)
 			// key by the first two frames of the report
